@@ -26,8 +26,8 @@
 EXTENDS Integers, Sequences, FiniteSets, TLC
 
 Kinds == {"gzip", "zip", "tar", "png", "gif", "wav", "bzip2"}
-PayloadClasses == <<"empty", "incompressible", "compressible", "big">>
-PayloadOf(p, i) == PayloadClasses[((p + i - 2) % 4) + 1]          \* member i (1-based) of a scenario with base class index p
+PayloadClasses == <<"empty", "incompressible", "compressible", "big", "flat">>   \* flat: > 64 KiB of one byte, expands several hundred times
+PayloadOf(p, i) == PayloadClasses[((p + i - 2) % Len(PayloadClasses)) + 1]          \* member i (1-based) of a scenario with base class index p
 NameClasses == {"ascii", "unicode", "long"}
 Regions == {"none", "payload", "header", "checksum", "uncovered"}
 PosClasses == {"first", "middle", "last"}
@@ -73,7 +73,7 @@ Scenario(kind, n, p, method, name, opt, region, pos, target) ==
      region |-> region, pos |-> pos, target |-> target]
 
 ValidScenario(s) ==
-    /\ s.kind \in Kinds /\ s.n \in Counts(s.kind) /\ s.p \in 1 .. 4
+    /\ s.kind \in Kinds /\ s.n \in Counts(s.kind) /\ s.p \in 1 .. Len(PayloadClasses)
     /\ s.method \in Methods(s.kind) /\ s.name \in Names(s.kind) /\ s.opt \in Options(s.kind)
     /\ NameFits(s.kind, s.method, s.name)
     /\ s.region \in RegionsOf(s.kind)
